@@ -167,6 +167,41 @@ theorem step_names_sublist (r : Ruler) (op : ROp) : r.allRules.Sublist (r.step o
     simp only [Ruler.step]
     unfold Ruler.getRules
     cases r.cache <;> exact List.Sublist.refl _
+  | setLazy b ns =>
+    simp only [Ruler.step, Ruler.setLazy]
+    have key : ∀ (l : List (Option String × String)) (r0 : Ruler) (acc : List String),
+        (enableLoopLazy b true l r0 acc).1.allRules = r0.allRules := by
+      intro l
+      induction l with
+      | nil => intro r0 acc; rfl
+      | cons p ps ih =>
+        intro r0 acc
+        obtain ⟨cb, n⟩ := p
+        have hg : ∀ (q : Ruler) (c : String), (q.getRules c).1.allRules = q.allRules := by
+          intro q c; unfold Ruler.getRules; cases q.cache <;> rfl
+        simp only [enableLoopLazy]
+        cases cb with
+        | none =>
+          simp only
+          split
+          · simp only [if_true]; exact ih _ _
+          · rw [ih]; simp [Ruler.allRules, setEnabled_names]
+        | some chain =>
+          simp only
+          split
+          · simp only [if_true]; rw [ih]; exact hg _ _
+          · rw [ih]; simp only [Ruler.allRules, setEnabled_names]; exact hg _ _
+    have := key ns { r with cache := none } []
+    generalize enableLoopLazy b true ns { r with cache := none } [] = res at this
+    obtain ⟨r', o⟩ := res
+    simp only at this
+    have h2 : r'.allRules = r.allRules := this
+    cases o with
+    | error e => simp only; rw [h2]; exact List.Sublist.refl _
+    | ok l =>
+      simp only
+      have : ({ r' with cache := none } : Ruler).allRules = r'.allRules := rfl
+      rw [this, h2]; exact List.Sublist.refl _
 
 theorem run_names_sublist (r : Ruler) (ops : List ROp) : r.allRules.Sublist (r.run ops).allRules := by
   induction ops generalizing r with
